@@ -111,7 +111,15 @@ class Executor(ExprMixin, StmtMixin, Engine):
         c = self.m.contracts.get(self.cur_fn_stack[0]) if len(self.cur_fn_stack) == 1 else None
         upd = None
         if c is not None and c.ghost_after and not isinstance(node, (ast.If, ast.While, ast.For, ast.Try)):
-            upd = c.ghost_after.get(ast.unparse(node))
+            text = ast.unparse(node)
+            upd = c.ghost_after.get(text)
+            if upd is None:
+                import re as _re
+                for pat, u in c.ghost_after.items():
+                    if pat.startswith('re:') and _re.fullmatch(pat[3:], text):
+                        upd = u
+                        self.ghost_hits = getattr(self, 'ghost_hits', set()) | {pat}
+                        break
         if upd is None:
             yield from super().exec_stmt(node, st)
             return
@@ -122,6 +130,12 @@ class Executor(ExprMixin, StmtMixin, Engine):
                     if gname == '__assume__':
                         # an assumed lemma (listed in the evidence as an assumption of this contract)
                         s1.assume(self.spec(expr, s1, {}, self.fn_old))
+                        continue
+                    if gname == '__assert__':
+                        e2, props = clause(expr)
+                        self.clause_props = props
+                        self.prove(s1, self.spec(e2, s1, {}, self.fn_old), 'ghost-assert', self.cur_line, text=e2)
+                        self.clause_props = None
                         continue
                     v = self.spec_val(expr, s1, {}, self.fn_old)
                     s1.env[gname] = self.coerce(v, c.ghost_init[gname][0])
@@ -223,6 +237,11 @@ class Executor(ExprMixin, StmtMixin, Engine):
             return
         if isinstance(base.t, TRef):
             key = self.method_key(base.t.cls, name)
+            if key is None and self.field_owner(base.t.cls, name) is not None:
+                # calling the value of a field (e.g. self.cls(match))
+                fv = self.attr_read(st, base, name, line, node)
+                yield from self.ev_call_value(node, fv, st)
+                return
             if key is None:
                 raise OutOfSubset('no contract for method %s.%s' % (base.t.cls, name), node)
             c = self.m.contracts[key]
